@@ -1,5 +1,6 @@
 use crate::Check;
 
+pub mod c01;
 pub mod c02;
 pub mod c04;
 pub mod c05;
@@ -36,6 +37,7 @@ pub fn get(id: &str) -> Option<Box<dyn Check>> {
         "C20" => Some(Box::new(c20::C20)),
         "C19" => Some(Box::new(c19::C19)),
         "C17" => Some(Box::new(c17::C17)),
+        "C01" => Some(Box::new(c01::C01)),
         "C05" => Some(Box::new(c05::C05)),
         _ => None,
     }
